@@ -8,6 +8,8 @@ from .. import paths
 from ..core import FUNC, call_attr, calls_in, const, dotted, is_const, kwarg, norm, text, walk_local
 
 EXPLANATION = [
+    'C12.mtu-fresh: in the async methods of gatt_client.Client no local copy of the ATT_MTU (self.mtu) taken before an await is used after it: the long-read threshold is the MTU current when the response arrives.',
+    'C12.fanout-independent: Server._notify_or_indicate_subscribers starts one task per subscribed bearer and awaits them together; nothing is awaited inside a loop over the bearers.',
     'C12.integer-arithmetic: no true division in the anchored modules: sizes and budgets are integers (a fractional budget admits one entry too many).',
     'C12.missing-await: inside async functions no call that resolves (through the declared type of self.<attr>, or self) to a coroutine method is returned or dropped without await.',
     'C12.sdu-boundary: LeCreditBasedChannel.process_output closes the SDU it is assembling as soon as one queued packet has been consumed entirely (path rule over the assembling loop): a notification / response written on an enhanced bearer arrives as its own PDU.',
@@ -594,7 +596,50 @@ def integer_arithmetic_rule(ctx):
     integer_arithmetic(ctx, 'C12.integer-arithmetic', ['bumble.gatt_client', 'bumble.gatt_server'])
 
 
+def fanout_independent(ctx):
+    """A notification / indication goes to each subscribed bearer independently: the per-bearer deliveries run as separate
+    tasks (one bearer's refusal, timeout or missing confirmation neither delays nor cancels the others)."""
+    R, p = ctx.r, ctx.p
+    rule = 'C12.fanout-independent'
+    fn = p.find('bumble.gatt_server.Server._notify_or_indicate_subscribers')
+    if fn is None:
+        R.bad(rule, 'bumble.gatt_server.Server._notify_or_indicate_subscribers', 'anchor missing')
+        return
+    seq = [a for lp in walk_local(fn) if isinstance(lp, (ast.For, ast.AsyncFor)) for a in ast.walk(lp) if isinstance(a, ast.Await)]
+    tasks = [c for c in calls_in(fn) if (dotted(c.func) or '') in ('asyncio.create_task', 'asyncio.ensure_future', 'asyncio.gather', 'asyncio.wait') or call_attr(c) == 'create_task']
+    R.check(not seq and bool(tasks), rule, 'bumble.gatt_server.Server._notify_or_indicate_subscribers | per-bearer tasks', 'deliveries are started as tasks and awaited together; nothing is awaited inside a loop over the bearers',
+            'the per-bearer deliveries are awaited one after the other: a subscriber that does not confirm (30 s) or whose read is refused delays or aborts the delivery to every following subscriber', p.loc(fn))
+
+
+def mtu_fresh(ctx):
+    """The "response is full, continue with Read Blob" threshold is ATT_MTU-1 *at the time the response arrives*: the MTU
+    may change while a request is queued or in flight, so a copy taken before an await is stale."""
+    R, p = ctx.r, ctx.p
+    rule = 'C12.mtu-fresh'
+    cl = p.cls('bumble.gatt_client.Client')
+    if cl is None:
+        R.bad(rule, 'bumble.gatt_client.Client', 'anchor missing')
+        return
+    n = 0
+    for name, fn in sorted(cl.methods.items()):
+        if not isinstance(fn, ast.AsyncFunctionDef):
+            continue
+        reads = [x for x in walk_local(fn) if isinstance(x, ast.Attribute) and dotted(x) in ('self.mtu', 'self.bearer.att_mtu')]
+        if not reads:
+            continue
+        n += 1
+        awaits = sorted(a.lineno for a in walk_local(fn) if isinstance(a, ast.Await))
+        for st in [x for x in walk_local(fn) if isinstance(x, ast.Assign) and len(x.targets) == 1 and isinstance(x.targets[0], ast.Name) and any(r in list(ast.walk(x.value)) for r in reads)]:
+            nm = st.targets[0].id
+            later_await = [a for a in awaits if a > st.lineno]
+            stale = [u for u in walk_local(fn) if isinstance(u, ast.Name) and u.id == nm and isinstance(u.ctx, ast.Load) and later_await and u.lineno > later_await[0]]
+            R.check(not stale, rule, f'bumble.gatt_client.Client.{name} | {norm(st)[:50]}', 'not used across an await', f'`{nm}` copies the ATT_MTU before an await (line {st.lineno}) and is used after it (line {stale[0].lineno if stale else 0}): if the MTU exchange completes in between, full responses are no longer recognised and long values come back truncated', p.loc(st))
+    R.check(n >= 2, rule, 'bumble.gatt_client.Client | methods reading the MTU', f'{n} async methods read self.mtu; no copy survives an await', f'only {n} methods found')
+
+
 RULES = [
+    ('C12.mtu-fresh', mtu_fresh),
+    ('C12.fanout-independent', fanout_independent),
     ('C12.integer-arithmetic', integer_arithmetic_rule),
     ('C12.missing-await', missing_await_rule),
     ('C12.sdu-boundary', sdu_boundary),
